@@ -490,3 +490,56 @@ func SplitInput(raw string) (cmd string, params []string) {
 	params = append(params, rest[tr+2:])
 	return cmd, params
 }
+
+// Scope sets e.Role to what the state says (not what the generator believed)
+// and reports whether the entry is outside every property's quantifier: a
+// line from an authenticated services link that is not a protocol-conforming
+// services line (client-grammar text without the prefix anope sends), or a
+// SERVER handshake without a valid server name.
+func Scope(before *verifview.View, e *verifgen.Entry) (skip bool) {
+	if e.Session == 0 {
+		return false
+	}
+	a := before.SessionById(verifview.Id{Id: e.Session})
+	if a == nil {
+		e.Role = "nosession"
+		return false
+	}
+	believedLink := e.Gen == "link"
+	probe := e.Gen == "probe"
+	switch {
+	case a.Server:
+		e.Role = "link"
+	case a.Operator:
+		e.Role = "oper"
+	case a.LoggedIn:
+		e.Role = "client"
+	default:
+		e.Role = "unreg"
+	}
+	if e.Type != 2 { // robust.IRCFromClient
+		return false
+	}
+	if a.Server && (!believedLink || probe) {
+		return true
+	}
+	if !a.Server && strings.HasPrefix(a.Pass, "services=") {
+		if cmd, params := SplitInput(e.Data); cmd == "SERVER" && (len(params) == 0 || !validServerName(params[0])) {
+			return true
+		}
+	}
+	return false
+}
+
+func validServerName(s string) bool {
+	if s == "" || len(s) > 63 {
+		return false
+	}
+	for i := 0; i < len(s); i++ {
+		c := s[i]
+		if !((c >= 'a' && c <= 'z') || (c >= 'A' && c <= 'Z') || (c >= '0' && c <= '9') || c == '.' || c == '-') {
+			return false
+		}
+	}
+	return true
+}
